@@ -16,6 +16,10 @@
           outcome (alpha) is compared with what TLC printed.
   TRACE   (code -> spec) seeded random types, candidates, regexes, texts, registered values and secrets beyond the
           bounds of the instance are run on the real code, recorded, and validated by TLC (Trace_Restricted).
+  ROUND 4 (extension): part strx (counted repetition, IGNORECASE groups, MULTILINE anchors), parts regm / pmode (parser modes json, jsonnet, toml:
+          registered round trips in the mode's dump formats and the restricted types through such parsers), part regc (registered values inside
+          List / Dict / Optional / Union / dataclass fields / defaults, os.PathLike), pydantic.SecretStr as a second flavour of part secret, and the type
+          registry as a state machine (spec/Registry.tla, MC_Registry, Trace_Registry; driver in c20_registry.py).
   Verdict: Ref clauses (accept/reject, value, idempotence, round trip "eq", no leak) -> VIOLATION (or KNOWN-FINDING when
   the real code behaves exactly as the named deviation of the Alg layer); Alg-only clauses -> drift.
 """
@@ -45,6 +49,8 @@ import jsonargparse  # noqa: E402
 from jsonargparse import ArgumentParser, Namespace  # noqa: E402
 from jsonargparse import typing as jtyping  # noqa: E402
 from jsonargparse.typing import SecretStr, restricted_number_type, restricted_string_type  # noqa: E402
+
+from . import c20_registry as regy  # noqa: E402  (round 4: the type registry as a state machine; imports jsonargparse)
 
 PID = "C20"
 WORKERS = int(os.environ.get("VERIF_TLC_WORKERS", "16"))
@@ -107,11 +113,13 @@ def bind_named(named_lines):
         _NUM_TYPES[num_key(ln["type"])] = getattr(jtyping, ln["name"])
 
 
-def build_num_type(tj, cache=True):
+def build_num_type(tj, cache=True, float_refs=False):
     key = num_key(tj)
     if cache and key in _NUM_TYPES:
         return _NUM_TYPES[key]
     restr = [(op, ref_py(tj["base"], n, d)) for op, n, d in tj["r"]]
+    if float_refs:  # round 4: integral references spelled as floats (1.0 == int(1.0) passes typing.py:134 for both bases; same registry key)
+        restr = [(op, float(r)) for op, r in restr]
     T = restricted_number_type(f"C20Num{len(_NUM_TYPES)}_{os.getpid()}", _BASES[tj["base"]], restr, join=tj["join"])
     _NUM_TYPES[key] = T
     return T
@@ -134,7 +142,11 @@ def re_pattern(t) -> str:
         return "(?:" + "|".join(re_pattern(x) for x in t["a"]) + ")"
     if k in ("star", "plus", "opt"):
         return "(?:" + re_pattern(t["r"]) + ")" + {"star": "*", "plus": "+", "opt": "?"}[k]
-    return {"bol": "^", "eol": "$", "eos": r"\Z"}[k]
+    if k == "rep":  # round 4: counted repetition, hi < 0 = unbounded
+        return "(?:" + re_pattern(t["r"]) + "){" + str(t["lo"]) + "," + (str(t["hi"]) if t["hi"] >= 0 else "") + "}"
+    if k == "ci":  # a group under IGNORECASE
+        return "(?i:" + re_pattern(t["r"]) + ")"
+    return {"bol": "^", "eol": "$", "eos": r"\Z", "mbol": "(?m:^)", "meol": "(?m:$)"}[k]
 
 
 _STR_TYPES: dict = {}
@@ -329,6 +341,70 @@ def roundtrip(ty, v, chan):
     return "other", rrec, text
 
 
+# ---------------------------------------------------------------- round 4: parser modes json / jsonnet / toml
+_MODE_PARSERS: dict = {}
+MODE_FORMATS = {"json": ["json", "json_indented", "parser_mode"], "jsonnet": ["parser_mode"], "toml": ["parser_mode", "toml"]}
+
+
+def mode_parser(hint, mode, key=None):
+    k = (key or hint, mode)
+    if k not in _MODE_PARSERS:
+        p = ArgumentParser(exit_on_error=False, parser_mode=mode)
+        p.add_argument("--x", type=hint)
+        _MODE_PARSERS[k] = p
+    return _MODE_PARSERS[k]
+
+
+def roundtrip_mode(ty, v, mode, chan, fmt="parser_mode"):
+    """one round trip through a parser of the given mode -> (outcome class, representation record, written text)"""
+    parser = mode_parser(REG_HINT[ty], mode)
+    try:
+        rep = representation(parser, v)
+    except BaseException as ex:  # noqa: BLE001
+        return "dump-raise:" + type(ex).__name__, {"k": "none", "t": []}, ""
+    rrec = {"k": "str", "t": list(rep)} if isinstance(rep, str) else {"k": "float", "t": []}
+    text = ""
+    try:
+        if chan == "cli":
+            text = rep if isinstance(rep, str) else repr(rep)
+            back = parser.parse_args(["--x=" + text]).x
+        else:
+            text = parser.dump(Namespace(x=v), format=fmt)
+            back = parser.parse_string(text).x
+    except BaseException:  # noqa: BLE001
+        return "reject", rrec, text
+    if type(back) is type(v) and back == v:
+        return "eq", rrec, text
+    if isinstance(v, decimal.Decimal) and type(back) is decimal.Decimal:
+        with contextlib.suppress(BaseException):
+            via = decimal.Decimal(repr(float(v))) if chan == "cli" else decimal.Decimal(float(v))
+            if back == via or (back != back and via != via):
+                return "via-float", rrec, text
+    return "other", rrec, text
+
+
+def loaded_kind_mode(text, mode):
+    """what load_value makes of a text under the loader of `mode` (the assumption LdOfM of the spec, from the real loader)"""
+    from jsonargparse._common import parser_context
+    from jsonargparse._loaders_dumpers import get_loader_exceptions, load_value
+
+    try:
+        with parser_context(load_value_mode=mode):
+            try:
+                v = load_value(text) if text.strip() != "" else text
+            except get_loader_exceptions():
+                return "text"
+    except Exception:  # noqa: BLE001  load_value itself raises (TypeError / ValueError today): the class "crash"
+        return "crash"
+    if v is None:
+        return "none"
+    if isinstance(v, list):
+        return "list"
+    if isinstance(v, dict):
+        return "dict"
+    return "text" if isinstance(v, (str, int, float, bool)) else None
+
+
 def real_tags(text):
     """what the real resolvers say about a plain scalar (binding of part 6 of the spec), as (dumper, loader)"""
     import yaml
@@ -354,8 +430,33 @@ class _SecretDC:
     n: int = 1
 
 
+_FLAVOUR = ["jsonargparse"]  # which secret type the SecretStr helpers below use (set per case by replay_secret)
+
+
+def _secret_cls():
+    if _FLAVOUR[0] == "pydantic":
+        import pydantic
+
+        return pydantic.SecretStr
+    return SecretStr
+
+
+_SECRET_DC: dict = {}
+
+
+def _secret_dc():
+    S = _secret_cls()
+    if _FLAVOUR[0] == "jsonargparse":
+        return _SecretDC
+    if "p" not in _SECRET_DC:
+        _SECRET_DC["p"] = dataclasses.make_dataclass("_SecretDCp", [("pw", S, dataclasses.field(default=S("dc-default"))), ("n", int, dataclasses.field(default=1))])
+    return _SECRET_DC["p"]
+
+
 def secret_parser(ctx, secret):
     """-> (parser, config object to parse)"""
+    SecretStr = _secret_cls()  # noqa: N806
+    _SecretDC = _secret_dc()  # noqa: N806
     hint = {"bare": SecretStr, "optional": Optional[SecretStr], "list": List[SecretStr], "dict": Dict[str, SecretStr],
             "tuple": Tuple[SecretStr, int], "union": Union[int, SecretStr], "dataclass": _SecretDC, "default": SecretStr}[ctx]
     obj = {"bare": secret, "optional": secret, "list": [secret, "other"], "dict": {"a": secret}, "tuple": [secret, 1], "union": secret,
@@ -379,7 +480,7 @@ def other_secret(secret: str) -> str:
 
 
 def holds_secret(val, secret) -> bool:
-    if isinstance(val, SecretStr):
+    if isinstance(val, (SecretStr, _secret_cls())):
         return val.get_secret_value() == secret
     if isinstance(val, (list, tuple)):
         return any(holds_secret(x, secret) for x in val)
@@ -572,21 +673,21 @@ def replay_create(rep, lines):
     return n
 
 
-def replay_str(rep, jobs, regexes, texts, nonstr, tier):
-    """jobs: (emitted line of one regex, j0, j1) -- the slice of the texts to run"""
+def replay_str(rep, jobs, regexes, texts, nonstr, tier, tag="re"):
+    """jobs: (emitted line of one regex, j0, j1) -- the slice of the texts to run; tag "re" = part str, "rex" = part strx"""
     n = 0
     pytexts = [txt(t) for t in texts]
     for ln, j0, j1 in jobs:
         ri = ln["i"]
         term = regexes[ri - 1]
         pattern = re_pattern(term)
-        T = {1: jtyping.NotEmptyStr, 2: jtyping.Email}.get(ri) or build_str_type(pattern)
+        T = ({1: jtyping.NotEmptyStr, 2: jtyping.Email}.get(ri) if tag == "re" else None) or build_str_type(pattern)
         parser = make_parser(T)
         cre = _re.compile(pattern)
         for j in range(j0, j1):
             s = pytexts[j]
             chans = ["direct"]
-            if (ri + j) % (3 if tier == "quick" else 1) == 0:
+            if (ri + j) % ((3 if tag == "re" else 6) if tier == "quick" else 1) == 0:
                 chans += ["object", "cli"]
             exp_acc = ln["acc"][j]
             # independent cross-check of gamma(regex) and of the engine's fullmatch (not the verdict)
@@ -595,7 +696,7 @@ def replay_str(rep, jobs, regexes, texts, nonstr, tier):
             for chan in chans:
                 ob = run_channel(T, str, parser, chan, s)
                 n += 1
-                rep.note_nontrivial(f"str|{ri}|{s}|{chan}")
+                rep.note_nontrivial(f"str|{tag}{ri}|{s}|{chan}")
                 exp = {"k": "str", "v": ["none", 0, 1], "t": texts[j]} if exp_acc else {"k": "rejected", "v": ["none", 0, 1], "t": []}
                 case = {"regex": term, "pattern": pattern, "python_type": T.__name__, "text": s, "channel": chan, "expected": exp, "observed": ob}
                 mism = not outcome_matches(exp, ob)
@@ -603,21 +704,21 @@ def replay_str(rep, jobs, regexes, texts, nonstr, tier):
                 if mism and crash and ob["r"] == "raise":
                     rep.violation(f"str:loader-crash:{chan}", f"restricted string type {T.__name__} ({pattern!r}) rejects {s!r} via {chan} although it matches: load_value raises on the text (named deviation loader-crash)", case)
                 elif mism:
-                    rep.violation(f"str:{chan}:re{ri}:{s!r}:{'accepted' if ob['r'] == 'ok' else 'rejected'}",
+                    rep.violation(f"str:{chan}:{tag}{ri}:{s!r}:{'accepted' if ob['r'] == 'ok' else 'rejected'}",
                                   f"restricted string type {T.__name__} ({pattern!r}) on {s!r} via {chan}: expected {'accept' if exp_acc else 'reject'}, the code gave {ob['r']}", case)
                 else:
                     if crash and ob["r"] == "ok":
                         rep.add_drift(f"Alg predicts a loader crash on {s!r} but the parser accepted it", case)
                     if ob["r"] == "ok" and not (ob["idem"] and ob["inst"]):
-                        rep.violation(f"str:{chan}:re{ri}:{s!r}:not-idempotent", f"{T.__name__}: the accepted value of {s!r} is not a fixed point / not an instance", case)
-                if ri == 2 and j == 7 and chan == "direct":
-                    rep.sample({"part": "str", **case})
+                        rep.violation(f"str:{chan}:{tag}{ri}:{s!r}:not-idempotent", f"{T.__name__}: the accepted value of {s!r} is not a fixed point / not an instance", case)
+                if ((ri == 2 and j == 7) or (tag == "rex" and ri == 12 and j == 40)) and chan == "direct":
+                    rep.sample({"part": "str" if tag == "re" else "strx", **case})
         for j, c in enumerate(nonstr if j0 == 0 else []):
             for chan in ("direct", "object") if c["k"] != "none" else ("direct",):
                 ob = run_channel(T, str, parser, chan, gamma_cand(c))
                 n += 1
                 if ob["r"] != "raise" or ln["accx"][j]:
-                    rep.violation(f"str:{chan}:re{ri}:{cand_label(c)}:accepted", f"{T.__name__} accepted the non-string {cand_label(c)} via {chan}", {"regex": term, "candidate": c, "observed": ob})
+                    rep.violation(f"str:{chan}:{tag}{ri}:{cand_label(c)}:accepted", f"{T.__name__} accepted the non-string {cand_label(c)} via {chan}", {"regex": term, "candidate": c, "observed": ob})
     return n
 
 
@@ -684,26 +785,266 @@ def replay_reg(rep, lines, tier):
     return n
 
 
+def replay_regm(rep, lines, tier):
+    """part regm: registered values through parsers of mode json / jsonnet / toml (file in the mode's dump formats, command line)"""
+    n = 0
+    for ln in lines:
+        ty, f, mode = ln["ty"], ln["f"], ln["mode"]
+        vals = []
+        if mode == "jsonnet" and ln["dev"][0] != "loader-crash" and ln["i"] % (12 if tier == "quick" else 9) != 2:
+            continue  # every successful jsonnet evaluation costs ~30 ms: the predicted crashes and a quarter (quick) / a third (thorough) of the rest are replayed in this mode
+        if ty == "DecimalX":
+            vals = [(decimal.Decimal(s), s) for s in DECX[(f[0], f[1])]]
+        else:
+            try:
+                v = gamma_reg(ty, f)
+            except BaseException as ex:  # noqa: BLE001
+                machinery_failure(PID, f"gamma cannot build {ty} {f}: {ex!r}")
+            if ty in ("Path", "UUID", "complex") and str(v) != "".join(f):
+                continue
+            vals = [(v, "".join(f) if ty in ("Path", "UUID", "complex") else repr(v))]
+        for v, label in vals:
+            for ci, chan in enumerate(("file", "cli")):
+                if chan == "cli" and label == "--":
+                    continue
+                for fmt in ((MODE_FORMATS[mode] if tier == "thorough" else MODE_FORMATS[mode][-2:][:1 + (mode == "json")]) if chan == "file" else ["-"]):
+                    obs, rrec, text = roundtrip_mode(ty, v, mode, chan, fmt)
+                    n += 1
+                    rep.note_nontrivial(f"regm|{mode}|{fmt}|{ty}|{label}|{chan}")
+                    cname = f"{mode}:{chan}" + (f":{fmt}" if chan == "file" else "")
+                    case = {"type": ty, "abstract_value": f, "python_value": repr(v)[:120], "parser_mode": mode, "channel": chan, "dump_format": fmt,
+                            "representation": rrec, "written": text[:200], "expected": "eq", "alg_predicts": ln["alg"][ci], "named_deviation": ln["dev"][ci], "observed": obs,
+                            "python": f"p=ArgumentParser(exit_on_error=False, parser_mode={mode!r}); p.add_argument('--x', type={REG_HINT[ty].__name__}); p.parse_string(p.dump(Namespace(x={v!r})))"}
+                    classify_reg(rep, ty, f, label, cname, obs, ln["alg"][ci], ln["dev"][ci], case)
+                    if ci == 0 and ln["rep"]["k"] == "str" and rrec["k"] == "str" and rrec["t"] != list(ln["rep"]["t"]):
+                        rep.add_drift(f"representation of {ty} {label} (mode {mode}): spec {''.join(ln['rep']['t'])!r}, code {''.join(rrec['t'])!r}", case)
+                    if (obs != "eq" and mode == "jsonnet") or (ty == "Path" and label == "1:" and chan == "file"):
+                        rep.sample({"part": "regm", **case}, limit=10)
+    return n
+
+
+# ---------------------------------------------------------------- round 4: registered values inside containers / dataclass fields / defaults
+_CTX_PARSERS: dict = {}
+_CTX_DC: dict = {}
+
+
+def ctx_hint(ty, ctx):
+    T = REG_HINT[ty]
+    if ctx == "dataclass":
+        if ty not in _CTX_DC:
+            _CTX_DC[ty] = dataclasses.make_dataclass(f"C20DC{ty}", [("p", T), ("n", int, dataclasses.field(default=1))])
+        return _CTX_DC[ty]
+    return {"list": List[T], "dict": Dict[str, T], "optional": Optional[T], "union": Union[T, int], "default": T, "bare": T}[ctx]
+
+
+def ctx_wrap(ctx, v):
+    return {"list": lambda: [v, v], "dict": lambda: {"k": v}, "dataclass": lambda: Namespace(p=v, n=1)}.get(ctx, lambda: v)()
+
+
+def ctx_leaf(ctx, back):
+    """the leaf of what came back, or a marker when the container itself is not what was written"""
+    if ctx == "list":
+        return back[0] if isinstance(back, list) and len(back) == 2 and type(back[0]) is type(back[1]) and (back[0] == back[1] or back[0] != back[0]) else _BAD
+    if ctx == "dict":
+        return back["k"] if isinstance(back, dict) and list(back) == ["k"] else _BAD
+    if ctx == "dataclass":
+        return back.p if isinstance(back, Namespace) and sorted(vars(back)) == ["n", "p"] and back.n == 1 else _BAD
+    return back
+
+
+_BAD = object()
+REG_HINT["PathLike"] = os.PathLike
+
+
+def roundtrip_ctx(ty, v, ctx, chan):
+    """one dump -> parse round trip of a configuration holding v in the given context -> (outcome class, representation record, text)"""
+    if ctx == "default":
+        parser = ArgumentParser(exit_on_error=False)
+        parser.add_argument("--x", type=ctx_hint(ty, ctx), default=v)
+        parser.add_argument("--y", type=int, default=1)
+        cfg = parser.parse_args([])
+        if not (type(cfg.x) is type(v) and (cfg.x == v)):
+            return "default-changed", {"k": "none", "t": []}, ""
+    else:
+        if (ty, ctx) not in _CTX_PARSERS:
+            _CTX_PARSERS[(ty, ctx)] = make_parser(ctx_hint(ty, ctx))
+        parser = _CTX_PARSERS[(ty, ctx)]
+        cfg = Namespace(x=ctx_wrap(ctx, v))
+    try:
+        whole = json.loads(parser.dump(cfg, format="json"), parse_constant=lambda c: float(c.replace("Infinity", "inf").replace("NaN", "nan")))["x"]
+    except BaseException as ex:  # noqa: BLE001
+        if ty == "PathLike":  # the value IS the representation: dump validates the configuration, i.e. parses the str again
+            return "reject", {"k": "str", "t": list(v)}, "dump raised " + type(ex).__name__
+        return "dump-raise:" + type(ex).__name__, {"k": "none", "t": []}, ""
+    leafrep = whole[0] if ctx == "list" else whole["k"] if ctx == "dict" else whole["p"] if ctx == "dataclass" else whole
+    rrec = {"k": "str", "t": list(leafrep)} if isinstance(leafrep, str) else {"k": "float", "t": []}
+    text = ""
+    try:
+        if chan == "cli":
+            if ctx in ("list", "dict"):
+                text = "--x=" + json.dumps(whole)
+            elif ctx == "dataclass":
+                text = "--x.p=" + (leafrep if isinstance(leafrep, str) else repr(leafrep))
+            else:
+                text = "--x=" + (leafrep if isinstance(leafrep, str) else repr(leafrep))
+            back = parser.parse_args([text]).x
+        else:
+            text = parser.dump(cfg, format=chan)
+            back = parser.parse_string(text).x
+    except BaseException:  # noqa: BLE001
+        return "reject", rrec, text
+    leaf = ctx_leaf(ctx, back)
+    if leaf is _BAD:
+        return "other", rrec, text
+    if type(leaf) is type(v) and leaf == v:
+        return "eq", rrec, text
+    if isinstance(v, decimal.Decimal) and type(leaf) is decimal.Decimal:
+        with contextlib.suppress(BaseException):
+            via = decimal.Decimal(repr(float(v))) if (chan == "cli" and ctx not in ("list", "dict")) else decimal.Decimal(float(v))
+            if leaf == via:
+                return "via-float", rrec, text
+    return "other", rrec, text
+
+
+def replay_regc(rep, lines, tier):
+    n = 0
+    for ln in lines:
+        ty, f, ctx = ln["ty"], ln["f"], ln["ctx"]
+        if ty == "DecimalX":
+            vals = [(decimal.Decimal(s), s) for s in DECX[(f[0], f[1])][:2]]
+        elif ty == "PathLike":
+            vals = [("".join(f), "".join(f))]  # the parsed value of an os.PathLike argument is the str (typing.py:385)
+            if loaded_kind("".join(f)) != ln["ld"]:
+                if ln["ld"] == "crash":
+                    rep.add_drift(f"LoaderCrash predicts that load_value raises on {''.join(f)!r}; the real loader returns ({loaded_kind(''.join(f))})", {"text": "".join(f)})
+                else:
+                    machinery_failure(PID, f"loader assumption PathLikeTable is wrong for {''.join(f)!r}: spec {ln['ld']}, load_value {loaded_kind(''.join(f))}")
+        else:
+            try:
+                v = gamma_reg(ty, f)
+            except BaseException as ex:  # noqa: BLE001
+                machinery_failure(PID, f"gamma cannot build {ty} {f}: {ex!r}")
+            if ty in ("Path", "UUID", "complex") and str(v) != "".join(f):
+                continue
+            vals = [(v, "".join(f) if ty in ("Path", "UUID", "complex") else repr(v))]
+        for v, label in vals:
+            for ci, chan in enumerate(CHANNELS):
+                if chan == "cli" and (label == "--" or (label.startswith("-") and ctx not in ("list", "dict"))):
+                    continue  # argparse's own reading of option-like values (not jsonargparse's doing); items travel inside JSON
+                obs, rrec, text = roundtrip_ctx(ty, v, ctx, chan)
+                n += 1
+                rep.note_nontrivial(f"regc|{ctx}|{ty}|{label}|{chan}")
+                case = {"type": ty, "context": ctx, "hint": str(ctx_hint(ty, ctx)), "abstract_value": f, "python_value": repr(v)[:120], "channel": chan, "representation": rrec,
+                        "written": text[:200], "expected": "eq", "alg_predicts": ln["alg"][ci], "named_deviation": ln["dev"][ci], "observed": obs}
+                if ln["ref"][ci] == "eq|other" and obs in ("eq", "other"):  # Optional[T] and a representation that load_value reads as None: not pinned by the property
+                    rep.extra["optional_null_text_cases"] = rep.extra.get("optional_null_text_cases", 0) + 1
+                    if obs != ln["alg"][ci]:
+                        rep.add_drift(f"{ty} {label} in Optional via {chan}: Alg predicts {ln['alg'][ci]} (null-text), observed {obs}", case)
+                    continue
+                classify_reg(rep, ty, f, label, f"{ctx}:{chan}", obs, ln["alg"][ci], ln["dev"][ci], case)
+                if ci == 0 and ln["rep"]["k"] == "str" and rrec["k"] == "str" and rrec["t"] != list(ln["rep"]["t"]):
+                    rep.add_drift(f"representation of {ty} {label} in context {ctx}: spec {''.join(ln['rep']['t'])!r}, code {''.join(rrec['t'])!r}", case)
+                if label == "1:" and chan == "yaml":
+                    rep.sample({"part": "regc", **case}, limit=10)
+    return n
+
+
+def replay_pmode(rep, lines, cands, pmtexts, regexes, tier):
+    """part pmode: the predefined number types and the 14 restricted string types through parsers of mode json / jsonnet / toml"""
+    n = 0
+    pycands = [gamma_cand(c) for c in cands]
+    pytexts = [txt(t) for t in pmtexts]
+    for ln in lines:
+        mode = ln["mode"]
+        if tier == "quick" and mode == "jsonnet" and (ln["kind"], ln["n"]) not in (("named", 6), ("str", 1)):
+            continue  # (jsonnet evaluations are slow) quick: OpenUnitInterval and NotEmptyStr; thorough: all
+        if tier == "quick" and mode != "jsonnet" and ((ln["kind"] == "named" and ln["n"] not in (1, 5, 6)) or (ln["kind"] == "str" and ln["n"] not in (1, 2, 3, 9, 12, 14))):
+            continue  # quick: half of the types in the json / toml modes
+        if ln["kind"] == "named":
+            name = ("PositiveInt", "NonNegativeInt", "PositiveFloat", "NonNegativeFloat", "ClosedUnitInterval", "OpenUnitInterval")[ln["n"] - 1]
+            T = getattr(jtyping, name)
+            base = float if "Float" in name or "Interval" in name else int
+            parser = mode_parser(T, mode)
+            for j, c in enumerate(cands):
+                if tier == "quick" and mode == "jsonnet" and ln["ld"][j] == "text" and j % 5:
+                    continue
+                if c["k"] == "str" and loaded_kind_mode(pycands[j], mode) != ln["ld"][j]:
+                    if "crash" in (ln["ld"][j], loaded_kind_mode(pycands[j], mode)):  # the crash model against the real loader: Alg-level (the parse outcomes below carry the verdict)
+                        rep.add_drift(f"ModeLoaderCrash says {ln['ld'][j]} for {pycands[j]!r} in mode {mode}; the real loader: {loaded_kind_mode(pycands[j], mode)}", {"text": pycands[j], "mode": mode})
+                    else:
+                        machinery_failure(PID, f"loader assumption LdOfM is wrong for {pycands[j]!r} in mode {mode}: spec {ln['ld'][j]}, load_value {loaded_kind_mode(pycands[j], mode)}")
+                for chan in (["object"] if c["k"] != "none" else []) + (["cli"] if c["k"] == "str" else []):
+                    ob = run_channel(T, base, parser, chan, pycands[j])
+                    n += 1
+                    exp = ln["ref"][j]
+                    rep.note_nontrivial(f"pmode|{mode}|{name}|{cand_label(c)}|{chan}")
+                    case = {"python_type": name, "parser_mode": mode, "candidate": c, "python_value": repr(pycands[j])[:80], "channel": chan, "expected": exp, "observed": ob}
+                    if not outcome_matches(exp, ob):
+                        if ln["ld"][j] == "crash" and ob["r"] == "raise" and not ln["pacc"][j]:
+                            rep.violation(f"num:loader-crash:{mode}:{chan}", f"{name} on {cand_label(c)} via {chan} (mode {mode}): load_value raises on the text (named deviation loader-crash)", case)
+                        else:
+                            rep.violation(f"num:{mode}:{chan}:{name}:{cand_label(c)}:{'accepted' if ob['r'] == 'ok' else 'rejected'}",
+                                          f"{name} on {cand_label(c)} via {chan} of a {mode}-mode parser: the specification expects {exp['k']} {exp['v']}, the code gave {ob['r']} {ob['k']} {ob['v']}", case)
+                    elif ob["r"] == "ok" and not (ob["idem"] and ob["inst"]):
+                        rep.violation(f"num:{mode}:{chan}:{name}:{cand_label(c)}:not-idempotent", f"{name}: the accepted value of {cand_label(c)} is not a fixed point / not an instance", case)
+        else:
+            ri = ln["n"]
+            pattern = re_pattern(regexes[ri - 1])
+            T = {1: jtyping.NotEmptyStr, 2: jtyping.Email}.get(ri) or build_str_type(pattern)
+            parser = mode_parser(T, mode)
+            for j, s in enumerate(pytexts):
+                if tier == "quick" and mode == "jsonnet" and ln["ld"][j] == "text" and j % 5:
+                    continue
+                real_ld = loaded_kind_mode(s, mode)
+                if real_ld != ln["ld"][j] and "crash" in (real_ld, ln["ld"][j]):
+                    rep.add_drift(f"ModeLoaderCrash says {ln['ld'][j]} for {s!r} in mode {mode}; the real loader: {real_ld}", {"text": s, "mode": mode})
+                for chan in ("object", "cli"):
+                    ob = run_channel(T, str, parser, chan, s)
+                    n += 1
+                    rep.note_nontrivial(f"pmode|{mode}|re{ri}|{s}|{chan}")
+                    exp = {"k": "str", "v": ["none", 0, 1], "t": pmtexts[j]} if ln["acc"][j] else {"k": "rejected", "v": ["none", 0, 1], "t": []}
+                    case = {"pattern": pattern, "python_type": T.__name__, "parser_mode": mode, "text": s, "channel": chan, "expected": exp, "observed": ob}
+                    mism = not outcome_matches(exp, ob)
+                    if mism and ln["ld"][j] == "crash" and ob["r"] == "raise":
+                        rep.violation(f"str:loader-crash:{mode}:{chan}", f"restricted string type {T.__name__} ({pattern!r}) rejects {s!r} via {chan} of a {mode}-mode parser although it matches: load_value raises on the text (named deviation loader-crash)", case)
+                    elif mism:
+                        rep.violation(f"str:{mode}:{chan}:re{ri}:{s!r}:{'accepted' if ob['r'] == 'ok' else 'rejected'}",
+                                      f"restricted string type {T.__name__} ({pattern!r}) on {s!r} via {chan} of a {mode}-mode parser: expected {'accept' if ln['acc'][j] else 'reject'}, the code gave {ob['r']}", case)
+                    elif ln["ld"][j] == "crash" and ob["r"] == "ok":
+                        rep.add_drift(f"Alg predicts a loader crash on {s!r} in mode {mode} but the parser accepted it", case)
+                    if ri == 1 and s == "1:" and chan == "cli":
+                        rep.sample({"part": "pmode", **case}, limit=9)
+    return n
+
+
 def replay_secret(rep, lines, scratch):
     n = 0
     for ln in lines:
         ctx, secret = ln["ctx"], "".join(ln["secret"])
+        _FLAVOUR[0] = ln.get("flavour", "jsonargparse")
+        fl = "" if _FLAVOUR[0] == "jsonargparse" else "pydantic:"
         other = other_secret(secret)
-        dumps = secret_dumps(ctx, secret, scratch)
-        dumps2 = dict(secret_dumps(ctx, other, scratch))
+        try:
+            dumps = secret_dumps(ctx, secret, scratch)
+            dumps2 = dict(secret_dumps(ctx, other, scratch))
+        except BaseException as ex:  # noqa: BLE001  the configuration holding the secret cannot be parsed (never on the pinned tree)
+            rep.violation(f"secret:parse:{fl}{ctx}:{type(ex).__name__}", f"a configuration holding the {_FLAVOUR[0]} SecretStr {secret!r} in context {ctx} is not parsed: {ex!r}"[:300], {"context": ctx, "secret": secret})
+            n += 1
+            continue
         mask = "".join(ln["leaf"])
         for label, text in dumps:
             n += 1
-            rep.note_nontrivial(f"secret|{ctx}|{secret}|{label}")
-            case = {"context": ctx, "secret": secret, "dump_mode": label, "dump": text[:400]}
+            rep.note_nontrivial(f"secret|{fl}{ctx}|{secret}|{label}")
+            case = {"context": ctx, "secret_type": _FLAVOUR[0], "secret": secret, "dump_mode": label, "dump": text[:400]}
             if secret in text and secret not in dumps2.get(label, mask):
-                rep.violation(f"secret:leak:{ctx}:{label}", f"the secret {secret!r} occurs in the {label} dump of a {ctx} SecretStr", case)
+                rep.violation(f"secret:leak:{fl}{ctx}:{label}", f"the secret {secret!r} occurs in the {label} dump of a {ctx} SecretStr", case)
             if label in dumps2 and dumps2[label] != text:
-                rep.violation(f"secret:interference:{ctx}:{label}", f"the {label} dump of a {ctx} SecretStr depends on the secret", {**case, "dump_other_secret": dumps2[label][:400]})
+                rep.violation(f"secret:interference:{fl}{ctx}:{label}", f"the {label} dump of a {ctx} SecretStr depends on the secret", {**case, "dump_other_secret": dumps2[label][:400]})
             if mask not in text and not text.startswith("DUMP-RAISED") and "skip_default" not in label:
                 rep.add_drift(f"the mask does not occur in the {label} dump of a {ctx} SecretStr", case)
         if ctx == "list" and secret == "hunter2":
-            rep.sample({"part": "secret", "context": ctx, "secret": secret, "dumps": dumps[:3]})
+            rep.sample({"part": "secret", "context": ctx, "secret_type": _FLAVOUR[0], "secret": secret, "dumps": dumps[:3]})
+    _FLAVOUR[0] = "jsonargparse"
     return n
 
 
@@ -754,7 +1095,7 @@ def random_num_obs(rnd, count):
         refs = [Fraction(rnd.randint(-3, 3)) if base == "int" or rnd.random() < 0.5 else Fraction(rnd.randint(-12, 12), 4) for _ in range(k)]
         tj = {"base": base, "join": rnd.choice(["and", "or"]), "r": [[rnd.choice(OPS), r.numerator, r.denominator] for r in refs]}
         try:
-            T = build_num_type(tj)
+            T = build_num_type(tj, float_refs=rnd.random() < 0.4)
         except ValueError:
             continue  # name clash of an automatic name (typing.py:146-150), not part of the property
         parser = make_parser(T)
@@ -822,7 +1163,7 @@ def loaded_kind(text):
     return None
 
 
-ALPHA1 = ["a", "b", "@", ".", " ", NLCH]
+ALPHA1 = ["a", "b", "@", ".", " ", NLCH, "A"]
 
 
 def random_regex(rnd, depth=0):
@@ -834,9 +1175,14 @@ def random_regex(rnd, depth=0):
         return {"k": "cat", "a": [random_regex(rnd, depth + 1) for _ in range(rnd.randint(2, 3))]}
     if r < 0.72:
         return {"k": "alt", "a": [random_regex(rnd, depth + 1) for _ in range(2)]}
-    if r < 0.93:
+    if r < 0.84:
         return {"k": rnd.choice(["star", "plus", "opt"]), "r": random_regex(rnd, depth + 1)}
-    return {"k": rnd.choice(["bol", "eol", "eos"])}
+    if r < 0.90:  # round 4: counted repetition / IGNORECASE group / MULTILINE anchors
+        lo = rnd.randint(0, 2)
+        return {"k": "rep", "r": random_regex(rnd, depth + 1), "lo": lo, "hi": rnd.choice([-1, lo, lo + 1, lo + 2])}
+    if r < 0.94:
+        return {"k": "ci", "r": random_regex(rnd, depth + 1)}
+    return {"k": rnd.choice(["bol", "eol", "eos", "mbol", "meol"])}
 
 
 def sample_from(rnd, t, budget=6):
@@ -853,6 +1199,10 @@ def sample_from(rnd, t, budget=6):
         return sample_from(rnd, t["r"], budget) if rnd.random() < 0.5 else []
     if k in ("star", "plus"):
         return [c for _ in range(rnd.randint(0 if k == "star" else 1, 3)) for c in sample_from(rnd, t["r"], budget)]
+    if k == "rep":
+        return [c for _ in range(rnd.randint(t["lo"], t["lo"] + 1 if t["hi"] < 0 else t["hi"])) for c in sample_from(rnd, t["r"], budget)]
+    if k == "ci":
+        return [(c.swapcase() if rnd.random() < 0.5 else c) for c in sample_from(rnd, t["r"], budget)]
     return []
 
 
@@ -954,11 +1304,52 @@ def random_reg_obs(rnd, count):
     return obs, meta
 
 
+def random_regx_obs(rnd, count):
+    """round 4: registered values through parsers of other modes, and inside containers / dataclass fields / defaults"""
+    obs, meta = [], []
+    while len(obs) < count:
+        ty = rnd.choice(["range", "timedelta", "bytes", "bytearray", "Decimal", "Path", "Path", "UUID", "complex"])
+        dcls = "le15"
+        if ty == "range":
+            f = [rnd.randint(-9, 9), rnd.randint(-9, 9), rnd.choice([1, 1, -1, 2, -3, 7])]
+        elif ty == "timedelta":
+            f = [rnd.choice([0, 0, 1, -1, rnd.randint(-1000, 1000)]), rnd.choice([0, 1, 59, 3600, 86399, rnd.randint(0, 86399)]), rnd.choice([0, 0, 1, 999999, rnd.randint(0, 999999)])]
+        elif ty in ("bytes", "bytearray"):
+            f = list(base64.b64decode(rnd.choice(B64HAZ))) if rnd.random() < 0.4 else [rnd.randint(0, 255) for _ in range(rnd.randint(0, 6))]
+        elif ty == "Decimal":
+            f = [rnd.randint(0, 1), rnd.choice([0, 1, 5, 25, 125, 375, 3, 7, rnd.randint(0, 999999)]), rnd.randint(-6, 3)]
+            dcls = dec_facts(gamma_reg("Decimal", f))[4]
+        elif ty == "Path":
+            t = rnd.choice(["null", "~", "1:", "true:", "{1}", "._", "#a", "&a", "Null", "0x_", "a: b"]) if rnd.random() < 0.25 else "".join(rnd.choice(HAZ) for _ in range(rnd.randint(1, 6)))
+            if str(pathlib.Path(t)) != t or t.startswith("-"):
+                continue
+            f = list(t)
+        elif ty == "UUID":
+            f = list(str(uuid.UUID(int=rnd.getrandbits(128))))
+        else:
+            mk = lambda: rnd.choice([0.0, 1.0, -1.5, 0.25, 1e16, 1e-7, float(rnd.randint(-99, 99)) / 4])  # noqa: E731
+            f = list(str(complex(mk(), mk())))
+        val = gamma_reg(ty, f)
+        if rnd.random() < 0.5:
+            mode, ctx = rnd.choice(["json", "json", "toml", "toml", "jsonnet"] if rnd.random() < 0.3 else ["json", "toml"]), "bare"
+            chan = rnd.choice(["file", "cli"])
+            fmt = rnd.choice(MODE_FORMATS[mode]) if chan == "file" else "-"
+            o, rrec, text = roundtrip_mode(ty, val, mode, chan, fmt)
+        else:
+            mode, ctx = "yaml", rnd.choice(["list", "dict", "optional", "union", "dataclass", "default"])
+            chan, fmt = rnd.choice(CHANNELS), "-"
+            o, rrec, text = roundtrip_ctx(ty, val, ctx, chan)
+        obs.append({"ty": ty, "f": f, "dcls": dcls, "mode": mode, "ctx": ctx, "chan": chan, "rep": rrec, "obs": o.split(":")[0]})
+        meta.append({"python_value": repr(val)[:120], "hint": str(ctx_hint(ty, ctx)), "parser_mode": mode, "dump_format": fmt, "written": text[:200], "obs_full": o})
+    return obs, meta
+
+
 def random_secret_obs(rnd, count, scratch):
     obs, meta = [], []
     ctxs = ["bare", "optional", "list", "dict", "tuple", "union", "dataclass", "default"]
     while len(obs) < count:
         ctx = rnd.choice(ctxs)
+        _FLAVOUR[0] = rnd.choice(["jsonargparse", "jsonargparse", "pydantic"])
         secret = "".join(rnd.choice("abcXYZ019 :#'\"*-_{}[]é$\\/") for _ in range(rnd.randint(1, 12)))
         if rnd.random() < 0.2:
             secret = rnd.choice(["null", "true", "1e3", "123", "~", "*", "***", "{a: 1}", "[1]", "a: b", "- x", ""])
@@ -969,15 +1360,18 @@ def random_secret_obs(rnd, count, scratch):
             d1 = secret_dumps(ctx, secret, scratch)
             d2 = dict(secret_dumps(ctx, other, scratch))
         except BaseException as ex:  # noqa: BLE001
+            if loaded_kind(secret) == "crash" or loaded_kind(other) == "crash":
+                continue  # the secret is one of the texts on which load_value raises (named deviation loader-crash): it cannot be parsed at all
             machinery_failure(PID, f"secret driver failed on ctx={ctx} secret={secret!r}: {ex!r}")
         for label, text in d1:
             if label not in d2:
                 continue
             obs.append({"ctx": ctx, "secret": list(secret), "dump": list(text), "dump2": list(d2[label]),
                         "leafdumped": "skip_default" not in label and not text.startswith("DUMP-RAISED")})
-            meta.append({"mode": label})
+            meta.append({"mode": label, "secret_type": _FLAVOUR[0]})
             if len(obs) >= count:
                 break
+    _FLAVOUR[0] = "jsonargparse"
     return obs, meta
 
 
@@ -1006,8 +1400,13 @@ def run(rep, tier, rnd, scratch):
     # ---------------------------------------------------------------- MC
     tm = common.Timer()
     phases = rep.extra.setdefault("phase_s", {})
+    cpu = rep.extra.setdefault("phase_cpu_s_cumulative", {})  # user+sys of this process and its finished children: load-independent
     cfgname = f"MC_Restricted_{tier}"
     cov = os.environ.get("C20_COVERAGE") == "1"
+    import threading
+    regbox: dict = {}
+    regthread = threading.Thread(target=lambda: regbox.setdefault("r", tlc.run("MC_Registry", f"MC_Registry_{tier}", workers=max(2, WORKERS // 4), timeout=1200, heap="2g")))
+    regthread.start()  # the registry machine is model-checked while MC_Restricted runs
     mc = tlc.run("MC_Restricted", cfgname, workers=WORKERS, timeout=2400, heap=HEAP, coverage=cov)
     rep.add_tlc(cfgname, mc)
     if mc.errors:
@@ -1041,7 +1440,7 @@ def run(rep, tier, rnd, scratch):
         nv["alg_branch"].update(ln["br"])
         nv["parse_branch"].update(ln["pbr"])
         nv["num_outcome"].update(x["k"] for x in ln["ref"])
-    for ln in by_part["str"]:
+    for ln in by_part["str"] + by_part["strx"]:
         nv["str_accepts"].update("accept" if a else "reject" for a in ln["acc"])
         nv["loader_kinds"].update(ln["ld"])
         nv["parse_branch"].update(ln["pbr"])
@@ -1051,7 +1450,16 @@ def run(rep, tier, rnd, scratch):
             nv["reg_deviation"][ln["dev"][ci]] += 1
         if ln["ty"] == "Path":
             nv["resolver_tags_dumper/loader"]["/".join(ln["tags"])] += 1
+    nv["regm_deviation_by_mode"] = Counter()
+    for ln in by_part["regm"]:
+        for ci, ch in enumerate(("file", "cli")):
+            nv["regm_deviation_by_mode"][f"{ln['mode']}:{ch}:{ln['dev'][ci]}"] += 1
+    nv["pmode_loader_kinds"] = Counter(f"{ln['mode']}:{k}" for ln in by_part["pmode"] for k in ln["ld"])
     rep.extra["non_vacuity"] = {k: dict(sorted(v.items())) for k, v in nv.items()}
+    if not {"jsonnet:file:loader-crash", "jsonnet:file:none", "json:file:none", "toml:file:none", "json:file:float-serializer"} <= set(nv["regm_deviation_by_mode"]) \
+            or any(k.startswith(("json:", "toml:")) and k.endswith("loader-crash") for k in nv["regm_deviation_by_mode"]) \
+            or "jsonnet:crash" not in nv["pmode_loader_kinds"]:
+        machinery_failure(PID, f"vacuity (modes): {dict(nv['regm_deviation_by_mode'])} / {dict(nv['pmode_loader_kinds'])}")
     expected_branches = {"160-bool", "162-not-integer", "164-cast-ValueError", "164-cast-TypeError", "164-cast-OverflowError", "166-restriction", "94-accepted"}
     if not expected_branches <= set(nv["alg_branch"]) or not {"563-loader-crash", "582-first-attempt", "590-second-attempt", "596-rejected", "596-rejected-not-text", "escapes-OverflowError"} <= set(nv["parse_branch"]):
         machinery_failure(PID, f"vacuity: Alg branches exercised by the instance: {sorted(nv['alg_branch'])} / {sorted(nv['parse_branch'])}")
@@ -1061,7 +1469,7 @@ def run(rep, tier, rnd, scratch):
     if cov:
         rep.extra["tlc_coverage"] = {k: v for k, v in mc.coverage.items()}
 
-    phases["mc"] = tm.s()
+    phases["mc"] = tm.s(); cpu["mc"] = _cpu()
     # the loader assumption of the spec (LdOf) against the real loader
     for c, ld in zip(hdr["cands"], hdr["ld"]):
         if c["k"] == "str" and loaded_kind(txt(c["t"])) != ld:
@@ -1074,19 +1482,60 @@ def run(rep, tier, rnd, scratch):
     bind_named(by_part["named"])
     named = {n: getattr(jtyping, n) for n in ("PositiveInt", "NonNegativeInt", "PositiveFloat", "NonNegativeFloat", "ClosedUnitInterval", "OpenUnitInterval")}
     n_num = pooled(rep, replay_num, by_part["num"], (hdr["cands"], hdr["ld"], tier, None), chunk=48)
-    phases["replay_num"] = tm.s()
+    phases["replay_num"] = tm.s(); cpu["replay_num"] = _cpu()
     n_named = replay_num(rep, by_part["named"], hdr["cands"], hdr["ld"], tier, named)
     n_create = replay_create(rep, by_part["create"])
     nt = len(hdr["strtexts"])
     str_jobs = [(ln, j0, min(nt, j0 + 1500)) for ln in by_part["str"] for j0 in range(0, nt, 1500)]
     n_str = pooled(rep, replay_str, str_jobs, (hdr["regexes"], hdr["strtexts"], hdr["nonstr"], tier), chunk=1)
-    phases["replay_str"] = tm.s()
+    ntx = len(hdr["strxtexts"])
+    strx_jobs = [(ln, j0, min(ntx, j0 + 1500)) for ln in by_part["strx"] for j0 in range(0, ntx, 1500)]
+    n_strx = pooled(rep, replay_str, strx_jobs, (hdr["regexesx"], hdr["strxtexts"], hdr["nonstr"], tier, "rex"), chunk=1)
+    phases["replay_str"] = tm.s(); cpu["replay_str"] = _cpu()
     n_reg = pooled(rep, replay_reg, by_part["reg"], (tier,), chunk=200)
-    phases["replay_reg"] = tm.s()
+    phases["replay_reg"] = tm.s(); cpu["replay_reg"] = _cpu()
+    n_regm = pooled(rep, replay_regm, by_part["regm"], (tier,), chunk=24)
+    n_pmode = pooled(rep, replay_pmode, by_part["pmode"], (hdr["cands"], hdr["pmtexts"], hdr["regexes"], tier), chunk=1)
+    n_regc = pooled(rep, replay_regc, by_part["regc"], (tier,), chunk=48)
+    nvc = Counter(f"{ln['ctx']}:{ln['dev'][0]}" for ln in by_part["regc"])
+    rep.extra["non_vacuity"]["regc_deviation_by_context"] = dict(sorted(nvc.items()))
+    if not {"optional:loader-crash", "dataclass:loader-crash", "default:loader-crash", "union:loader-crash", "bare:loader-crash", "list:none", "dict:none", "list:float-serializer"} <= set(nvc) or "list:loader-crash" in nvc or "dict:loader-crash" in nvc:
+        machinery_failure(PID, f"vacuity (contexts): {dict(nvc)}")
+    phases["replay_modes"] = tm.s(); cpu["replay_modes"] = _cpu()
+    # ---- the type registry (spec/Registry.tla): behaviours emitted by MC_Registry
+    regthread.join()
+    rmc = regbox.get("r")
+    if rmc is None:
+        machinery_failure(PID, "MC_Registry did not run")
+    rep.add_tlc(f"MC_Registry_{tier}", rmc)
+    if rmc.errors:
+        if rmc.violated:
+            rep.violation("model:registry:" + ",".join(rmc.violated), f"TLC: invariant {rmc.violated} violated in MC_Registry (Alg does not refine Ref)", {"tlc_errors": rmc.errors, "counterexample": rmc.cex[:4000]})
+            return rep.finish()
+        machinery_failure(PID, "TLC failed on MC_Registry:\n" + rmc.stdout[-3000:])
+    behs = sorted((p for p in rmc.printed if isinstance(p, dict) and "ops" in p), key=lambda b: json.dumps([b["mach"], b["ops"]], sort_keys=True))
+    for bi, b in enumerate(behs):
+        b["i"] = bi
+    depth = 3 if tier == "quick" else 4
+    if not behs or any(len(b["ops"]) != depth for b in behs) or {b["mach"] for b in behs} != {"handlers", "create"}:
+        machinery_failure(PID, f"MC_Registry emitted {len(behs)} behaviours (expected complete behaviours of {depth} operations of both machines)")
+    from collections import Counter as _Ctr
+    rnv = _Ctr()
+    for b in behs:
+        for o, x in zip(b["ops"], b["outs"]):
+            rnv[f"{o['op']}:{x['ref']}/{x['alg']}" + (f":{x['why']}" if x["why"] != "-" else "") + (f":DEV-{x['dev']}" if x["dev"] != "-" else "")] += 1
+    rep.extra["registry_non_vacuity"] = dict(sorted(rnv.items()))
+    need = {"reg:ok/ok", "reg:raise/raise", "use:value/value", "use:fail/ValueError", "use:fail/KeyError", "dump:a/a", "dump:b/b", "create:raise|new/new", "create:existing/existing",
+            "create:raise/raise:different-name", "create:raise|new/raise:name-clash", "create:raise|new/existing:DEV-string-flags-ignored"}
+    if not need <= set(rnv):
+        machinery_failure(PID, f"vacuity (registry): missing {sorted(need - set(rnv))}")
+    n_registry = pooled(rep, regy.replay_behaviours, behs, (), chunk=max(40, len(behs) // 64))
+    rep.extra["registry_behaviours"] = len(behs)
+    phases["replay_registry"] = tm.s()
     n_secret = replay_secret(rep, by_part["secret"], scratch)
-    phases["replay_secret"] = tm.s()
-    rep.extra["replayed"] = {"num": n_num, "named": n_named, "create": n_create, "str": n_str, "reg": n_reg, "secret": n_secret}
-    n_replay = n_num + n_named + n_create + n_str + n_reg + n_secret
+    phases["replay_secret"] = tm.s(); cpu["replay_secret"] = _cpu()
+    rep.extra["replayed"] = {"num": n_num, "named": n_named, "create": n_create, "str": n_str, "strx": n_strx, "reg": n_reg, "regm": n_regm, "pmode": n_pmode, "regc": n_regc, "registry_steps": n_registry, "secret": n_secret}
+    n_replay = n_num + n_named + n_create + n_str + n_strx + n_reg + n_regm + n_pmode + n_regc + n_registry + n_secret
 
     # ---------------------------------------------------------------- TRACE
     scale = 1 if tier == "quick" else 8
@@ -1094,16 +1543,26 @@ def run(rep, tier, rnd, scratch):
     str_obs, str_meta = random_str_obs(rnd, 1500 * scale)
     reg_obs, reg_meta = random_reg_obs(rnd, 1200 * scale)
     sec_obs, sec_meta = random_secret_obs(rnd, 300 * scale, scratch)
-    phases["drivers"] = tm.s()
+    rx_obs, rx_meta = random_regx_obs(rnd, 500 * scale)
+    phases["drivers"] = tm.s(); cpu["drivers"] = _cpu()
     tf = scratch / "trace.json"
-    tf.write_text(json.dumps({"num": num_obs, "str": str_obs, "reg": reg_obs, "secret": sec_obs}))
+    tf.write_text(json.dumps({"num": num_obs, "str": str_obs, "reg": reg_obs, "secret": sec_obs, "regx": rx_obs}))
+    # registry behaviours beyond the bound of MC_Registry (code -> spec), validated by TLC while Trace_Restricted runs
+    rbeh = regy.random_behaviours(rnd, 150 * scale, 9)
+    rtf = scratch / "trace_registry.json"
+    rtf.write_text(json.dumps(rbeh))
+    rtbox: dict = {}
+    rtthread = threading.Thread(target=lambda: rtbox.setdefault("r", tlc.run("Trace_Registry", "Trace_Registry", workers=max(2, WORKERS // 4), env={"TRACE_FILE": str(rtf)}, timeout=1200, heap="2g")))
+    rtthread.start()
     tr = tlc.run("Trace_Restricted", "Trace_Restricted", workers=WORKERS, env={"TRACE_FILE": str(tf)}, timeout=2400, heap=HEAP)
     rep.add_tlc("Trace_Restricted", tr)
-    phases["trace_tlc"] = tm.s()
-    n_obs = len(num_obs) + len(str_obs) + len(reg_obs) + len(sec_obs)
+    phases["trace_tlc"] = tm.s(); cpu["trace_tlc"] = _cpu()
+    n_obs = len(num_obs) + len(str_obs) + len(reg_obs) + len(sec_obs) + len(rx_obs)
     if tr.errors or tr.distinct != n_obs + 65:
         machinery_failure(PID, f"trace validation run failed (distinct={tr.distinct}, expected {n_obs + 65}):\n" + tr.stdout[-3000:])
-    rep.extra["trace_observations"] = {"num": len(num_obs), "str": len(str_obs), "reg": len(reg_obs), "secret": len(sec_obs)}
+    rep.extra["trace_observations"] = {"num": len(num_obs), "str": len(str_obs), "reg": len(reg_obs), "secret": len(sec_obs), "regx": len(rx_obs)}
+    for o in rx_obs:
+        rep.note_nontrivial("tregx|" + json.dumps([o["ty"], o["f"], o["mode"], o["ctx"], o["chan"]], sort_keys=True))
     for o in num_obs:
         rep.note_nontrivial("tnum|" + json.dumps([o["T"], o["x"], o["chan"]], sort_keys=True))
     for o in str_obs:
@@ -1113,11 +1572,43 @@ def run(rep, tier, rnd, scratch):
     for o in sec_obs:
         rep.note_nontrivial("tsec|" + json.dumps([o["ctx"], o["secret"], len(o["dump"])], sort_keys=True))
 
+    # ---- registry behaviours beyond the bound of MC_Registry (code -> spec)
+    rtthread.join()
+    rtr = rtbox.get("r")
+    if rtr is None:
+        machinery_failure(PID, "Trace_Registry did not run")
+    rep.add_tlc("Trace_Registry", rtr)
+    if rtr.errors or rtr.distinct != len(rbeh) + 17:
+        machinery_failure(PID, f"registry trace validation failed (distinct={rtr.distinct}, expected {len(rbeh) + 17}):\n" + rtr.stdout[-3000:])
+    n_rsteps = sum(len(b["ops"]) for b in rbeh)
+    rep.extra["trace_observations"]["registry_behaviours"] = len(rbeh)
+    rep.extra["trace_observations"]["registry_steps"] = n_rsteps
+    for b in rbeh:
+        rep.note_nontrivial("treg|" + json.dumps(b["ops"], sort_keys=True))
+    rrej: dict = {}
+    for p in rtr.printed:
+        if isinstance(p, list) and len(p) == 5 and p[0] == "R" and p[1] == "registry":
+            rrej.setdefault((p[2], p[3]), []).append(p[4])
+    for (bn, q), clauses in sorted(rrej.items()):
+        b = rbeh[bn - 1]
+        hist = [regy.op_label(x) for x in b["ops"][:q]]
+        case = {"kind": "registry", "history": hist, "operations": b["ops"][:q], "operation": b["ops"][q - 1], "observed": b["obs"][q - 1], "failed_clauses": clauses}
+        refc = [c for c in clauses if c.startswith("ref")]
+        if not refc:
+            rep.add_drift(f"registry: the real code agrees with Ref but not with the Alg transcription ({clauses})", case)
+        elif any(c.startswith("ref-dev-") for c in refc):
+            dev = [c[len("ref-dev-"):] for c in refc if c.startswith("ref-dev-")][0]
+            rep.violation(f"create:{dev}", f"random registry behaviour {hist}: the last call returned the type registered before with other flags (named deviation {dev})", case)
+        else:
+            rep.violation(f"registry:trace:{b['ops'][q - 1]['op']}:{'+'.join(refc)}", f"random registry behaviour {hist}: TLC rejects the observation of the last step ({refc})", case)
+    phases["trace_registry"] = tm.s()
+    n_obs += n_rsteps
+
     rejects: dict = {}
     for p in tr.printed:
         if isinstance(p, list) and len(p) == 4 and p[0] == "R":
             rejects.setdefault((p[1], p[2]), []).append(p[3])
-    pools = {"num": (num_obs, num_meta), "str": (str_obs, str_meta), "reg": (reg_obs, reg_meta), "secret": (sec_obs, sec_meta)}
+    pools = {"num": (num_obs, num_meta), "str": (str_obs, str_meta), "reg": (reg_obs, reg_meta), "secret": (sec_obs, sec_meta), "regx": (rx_obs, rx_meta)}
     for (kind, idx), clauses in sorted(rejects.items()):
         o, m = pools[kind][0][idx - 1], pools[kind][1][idx - 1]
         case = {"kind": kind, "observation": _short(o), "python": m, "failed_clauses": clauses}
@@ -1133,6 +1624,13 @@ def run(rep, tier, rnd, scratch):
             what = type_label(o["T"]) if kind == "num" else m["pattern"]
             rep.violation(f"{kind}:{o['chan']}:{(o['T']['base'] if kind == 'num' else 're')}:{cand_label(o['x'])}:{'accepted' if o['obs']['r'] == 'ok' else 'rejected'}:{'+'.join(refc)}",
                           f"random {kind} case {what} on {cand_label(o['x'])} via {o['chan']}: TLC rejects the observation ({refc})", case)
+        elif kind == "regx":
+            dev = [c[len("ref-dev-"):] for c in refc if c.startswith("ref-dev-")]
+            where = f"{o['mode']}:{o['ctx']}:{o['chan']}"
+            if dev:
+                rep.violation(f"registered:{dev[0]}:{o['ty']}", f"{o['ty']} value {m['python_value']} does not survive the round trip {where} ({o['obs']}); named deviation {dev[0]}", case)
+            else:
+                rep.violation(f"registered:roundtrip:{o['ty']}:{where}:{o['obs']}:{m['python_value'][:40]}", f"{o['ty']} value {m['python_value']} via {where}: expected an equal value back, got {m['obs_full']}", case)
         elif kind == "reg":
             dev = [c[len("ref-dev-"):] for c in refc if c.startswith("ref-dev-")]
             if dev:
@@ -1147,16 +1645,24 @@ def run(rep, tier, rnd, scratch):
     rep.evaluations = rep.traces
     rep.rule = ("cases = (type, candidate, channel) for restricted numbers, (regex, text, channel) for restricted strings, (registered type, value, channel) "
                 "round trips, (context, secret, dump mode) for SecretStr; counted as non-trivial and distinct: number cases whose candidate is not a plain int or lies "
-                "within 1 of a reference value; every distinct string / registered / secret case (each has its own text or value)")
+                "within 1 of a reference value; every distinct string / registered / secret case (each has its own text or value); for the parser modes and the "
+                "containers (mode | context, type, value, channel); for the registry every distinct history (sequence of operations up to the step that is compared)")
     rep.exhaustive = False
     rep.explanation = (f"MC_Restricted enumerated its bounded instance completely ({mc.distinct} states: {hdr['counts']}); every emitted case was replayed on the real "
                        f"code ({n_replay} executions: direct channel for every (type, candidate), parser channels for a rotating share); {n_obs} further seeded random "
-                       f"observations beyond the bounds were validated by TLC against Trace_Restricted ({tr.distinct} states)")
+                       f"observations beyond the bounds were validated by TLC against Trace_Restricted ({tr.distinct} states); MC_Registry enumerated every sequence of "
+                       f"{depth} operations of the two registry machines ({rmc.distinct} states, {len(behs)} complete behaviours, each replayed step by step) and Trace_Registry "
+                       f"validated {len(rbeh)} longer seeded random behaviours ({n_rsteps} steps)")
     if num_obs:
         rep.sample({"part": "trace-num", "observation": _short(num_obs[len(num_obs) // 2]), "python": num_meta[len(num_obs) // 2]}, limit=14)
     if reg_obs:
         rep.sample({"part": "trace-reg", "observation": _short(reg_obs[len(reg_obs) // 3]), "python": reg_meta[len(reg_obs) // 3]}, limit=14)
     return rep.finish()
+
+
+def _cpu() -> float:
+    t = os.times()
+    return round(t.user + t.system + t.children_user + t.children_system, 1)
 
 
 def _short(o):
@@ -1171,6 +1677,22 @@ def replay_file(path) -> int:
     case = rec.get("case", {})
     case = case.get("observation", case) if "observation" in case else case
     try:
+        if "history" in case and "operation" in case:  # round 4: a behaviour of the type registry -- the recorded history is run again step by step
+            if "operations" in case:
+                w = regy.World()
+                for o in case["operations"]:
+                    print(f"RE-RUN {regy.op_label(o)}: {w.step(o)}")
+            else:
+                print("recorded history:", case["history"], "-> observed", case.get("observed"))
+            return 0
+        if "abstract_value" in case and ("parser_mode" in case or ("context" in case and "secret" not in case)):  # round 4: parser modes / containers
+            ty, f = case["type"], case["abstract_value"]
+            v = "".join(f) if ty == "PathLike" else gamma_reg(ty, f) if ty != "DecimalX" else None
+            if v is not None and "parser_mode" in case:
+                print(f"RE-RUN {ty} {v!r} mode {case['parser_mode']} via {case['channel']} ({case.get('dump_format')}): {roundtrip_mode(ty, v, case['parser_mode'], case['channel'], case.get('dump_format') or 'parser_mode')}")
+            elif v is not None:
+                print(f"RE-RUN {ty} {v!r} in context {case['context']} via {case['channel']}: {roundtrip_ctx(ty, v, case['context'], case['channel'])}")
+            return 0
         if "candidate" in case or "T" in case:  # a restricted number case
             tj, c, chan = case.get("type") or case["T"], case.get("candidate") or case["x"], case.get("channel") or case["chan"]
             try:
